@@ -312,7 +312,7 @@ def _float_fma(kind):
             elif kind == "fnma":   # -(a*b) + c
                 cands = [fma(na, b, c), fma(a, nb, c), add(mul(na, b), F(c)), sub(F(c), mul(a, b))]
             else:                  # fnms: -(a*b) - c
-                cands = [fma(na, b, nc), fma(a, nb, nc), sub(mul(na, b), F(c)), ctx.spec("neg", fma(a, b, c))]
+                cands = [fma(na, b, nc), fma(a, nb, nc), sub(mul(na, b), F(c))]
             ens.append("(" + " || ".join(ctx.eq(R.lane(i), x) for x in cands) + ")")
         ctx.ensures += conj(ens, 2)
     return build
